@@ -8,9 +8,10 @@ All tokens are separated by single spaces; `str` is the wire encoding of a strin
 ```
 tmpl  := uri:str kw enabled:0|1 hdr items
 kw    := n (key:str argv)*            argv := s str | i nat | c
-hdr   := kind:0..4 name:str line:nat (N | P str) cached buffered filtered nattrs (attr:str expr)*
+hdr   := kind:0..4 name:str line:nat (N | P str) cached buffered filtered attrs (L | H tid:nat uri:str kw attrs)
+attrs := n (attr:str expr)*           (H …: the section is declared by that template, not by the rendered one)
 expr  := n (L str | X str)*           (literal / variable)
-items := ( T str | V str | K str | I hdr (N | A expr) site:0|1 items )* E
+items := ( T str | V str | K str | I hdr (N | A expr) site:0..3 items )* E
 op    := R t env | B t | D t str | C t str | X t key:str kw | S t key:str val:str kw | G t key:str kw | N t 0|1 | P t
 env   := n (name:str val:str)*
 ```
@@ -75,6 +76,18 @@ def pKind : P Kind
   | "4" :: ts => some (.anonBlock, ts)
   | _ => none
 
+def pAttrs : P (List (Str × Expr)) := pList fun ts => do
+  let (k, ts) ← pStr ts
+  let (e, ts) ← pExpr ts
+  pure ((k, e), ts)
+
+def pSite : P Site
+  | "0" :: ts => some (.plain, ts)
+  | "1" :: ts => some (.filtered, ts)
+  | "2" :: ts => some (.captured, ts)
+  | "3" :: ts => some (.capturedFiltered, ts)
+  | _ => none
+
 def pHdr : P Hdr := fun ts => do
   let (kind, ts) ← pKind ts
   let (name, ts) ← pStr ts
@@ -86,11 +99,17 @@ def pHdr : P Hdr := fun ts => do
   let (cached, ts) ← pBool ts
   let (buffered, ts) ← pBool ts
   let (filtered, ts) ← pBool ts
-  let (attrs, ts) ← pList (fun ts => do
-    let (k, ts) ← pStr ts
-    let (e, ts) ← pExpr ts
-    pure ((k, e), ts)) ts
-  pure ({ kind, name, line, param, cached, buffered, filtered, attrs }, ts)
+  let (attrs, ts) ← pAttrs ts
+  let (home, ts) ← (match ts with
+    | "L" :: ts => some (none, ts)
+    | "H" :: ts => do
+      let (tid, ts) ← pNat ts
+      let (uri, ts) ← pStr ts
+      let (cacheArgs, ts) ← pKw ts
+      let (pageAttrs, ts) ← pAttrs ts
+      pure (some { tid, uri, cacheArgs, pageAttrs }, ts)
+    | _ => none : Option (Option Home × List String))
+  pure ({ kind, name, line, param, cached, buffered, filtered, attrs, home }, ts)
 
 def pItems : Nat → P Items
   | 0, _ => none
@@ -115,7 +134,7 @@ def pItems : Nat → P Items
         | "N" :: ts => some (none, ts)
         | "A" :: ts => do let (e, ts) ← pExpr ts; pure (some e, ts)
         | _ => none : Option (Option Expr × List String))
-      let (site, ts) ← pBool ts
+      let (site, ts) ← pSite ts
       let (body, ts) ← pItems fuel ts
       let (rest, ts) ← pItems fuel ts
       pure (.inv h arg site body rest, ts)
